@@ -18,11 +18,19 @@ def good : Cfg :=
     -- name(): a zombie's / unreadable cmdline keeps the kernel's name; exe(): only AccessDenied leads to the
     -- guess, only AccessDenied of the guess is swallowed, only an AccessDenied fallback is re-raised
     nameSwallows := [.zombieProcess, .accessDenied], exeGuessOn := [.accessDenied],
-    exeGuessSwallows := [.accessDenied], guessReraises := [.accessDenied] }
+    exeGuessSwallows := [.accessDenied], guessReraises := [.accessDenied],
+    -- path_exists_strict: whatever `os.stat` fails with means "nothing of that name exists" — except a refused
+    -- examination (PermissionError), which leaves the helper; no failure is answered True
+    existsFalseOn := OsCls.all.filter (· != .permission), existsTrueOn := [] }
 
 @[simp] theorem good_nameSwallows : good.nameSwallows = [.zombieProcess, .accessDenied] := rfl
 @[simp] theorem good_exeGuessOn : good.exeGuessOn = [.accessDenied] := rfl
 @[simp] theorem good_exeGuessSwallows : good.exeGuessSwallows = [.accessDenied] := rfl
+attribute [simp] linkGone
+
+@[simp] theorem good_existsTrueOn : good.existsTrueOn = [] := rfl
+@[simp] theorem good_existsFalseOn (c : OsCls) : c ∈ good.existsFalseOn ↔ c ≠ .permission := by
+  cases c <;> decide
 
 /-! ### fields / splitOn -/
 
